@@ -230,7 +230,11 @@ OnMonEnable(s, e) ==
          \cup (IF s.lastVerify.x # s.ver.x \/ s.lastVerify.y # s.ver.y THEN {V(s, e, "C09_EnableWrongCfg")} ELSE {}))
 
 OnMonExited(s, e) ==
-  LET r == FinishIteration(s, e) IN R([r.s EXCEPT !.monExited = TRUE], r.v)
+  \* the monitor may stop only when the Config context ends or when every watching source has said it is done: if it stops
+  \* while a source still watches, that source's later reports can never be installed (the view no longer follows them)
+  LET r == FinishIteration(s, e)
+      early == ~s.teardown /\ "ctx" \notin s.cancelled /\ s.doneSrcs # 1..s.nsrc
+  IN R([r.s EXCEPT !.monExited = TRUE], r.v \cup (IF early THEN {V(s, e, "C05_MonitorGoneEarly")} ELSE {}))
 
 (* ------------------------------ callbacks -------------------------------- *)
 OnApiCtlSent(s, e) ==
@@ -419,6 +423,7 @@ OnFresh(s, e) ==
 OnAnomaly(s, e) ==
   R(s, IF e.kind = "hang" THEN {V(s, e, "C08_Hang")}
        ELSE IF e.kind = "concurrent" THEN {V(s, e, "C06_NotSerialized")}
+       ELSE IF e.kind = "enstall" THEN {V(s, e, "C09_EnableUnanswered"), V(s, e, "C08_Anomaly")}
        ELSE {V(s, e, "C08_Anomaly")})
 
 OnPanic(s, e) == R(s, {V(s, e, "C08_Panic")})
